@@ -661,7 +661,11 @@ def gen_vec(em, e):
     ops = elem_ops(em, e)
     triv = em.is_trivially_copyable(e)
     cp = (lambda src: em.copy_expr(e, src)) if not triv else (lambda src: src)
-    s = '''struct %(V)s { %(E)s *data; unsigned long size; unsigned long cap; };
+    inline = bool(em.cfg.get('vstd_inline'))
+    s = ('''#ifndef VSTD_CAP_%(V)s
+#define VSTD_CAP_%(V)s VSTD_CAP_DEFAULT
+#endif
+struct %(V)s { %(E)s data[VSTD_CAP_%(V)s]; unsigned long size; unsigned long cap; };''' if inline else '''struct %(V)s { %(E)s *data; unsigned long size; unsigned long cap; };''') % dict(V=V, E=E, en=en) + '''
 struct vit_%(en)s { struct %(V)s *v; unsigned long i; };
 struct rvit_%(en)s { struct %(V)s *v; unsigned long i; };
 struct bii_%(en)s { struct %(V)s *v; };''' % dict(V=V, E=E, en=en)
@@ -670,7 +674,7 @@ struct bii_%(en)s { struct %(V)s *v; };''' % dict(V=V, E=E, en=en)
 #ifndef VSTD_CAP_%(V)s
 #define VSTD_CAP_%(V)s VSTD_CAP_DEFAULT
 #endif
-void %(V)s_init(struct %(V)s *v) { v->data = (%(E)s *)malloc(sizeof(%(E)s) * VSTD_CAP_%(V)s); v->size = 0; v->cap = VSTD_CAP_%(V)s; }
+%(INIT)s
 unsigned long %(V)s_size(struct %(V)s *v) { return v->size; }
 unsigned long %(V)s_capacity(struct %(V)s *v) { return v->cap; }
 unsigned long %(V)s_max_size(struct %(V)s *v) { return VSTD_MAX_SIZE; }
@@ -694,10 +698,7 @@ void %(V)s_resize_val(struct %(V)s *v, unsigned long n, %(E)s x) {
   __CPROVER_assert(n <= v->cap, "vstd-capacity: resize within modelled capacity");
   for (unsigned long k = v->size; k < n; k++) { v->data[k] = %(cpx)s; }
   v->size = n; }
-struct %(V)s %(V)s_copy(struct %(V)s *src) {
-  struct %(V)s r; r.cap = src->cap > VSTD_CAP_%(V)s ? src->cap : VSTD_CAP_%(V)s; r.data = (%(E)s *)malloc(sizeof(%(E)s) * r.cap); r.size = src->size;
-  for (unsigned long k = 0; k < src->size; k++) { r.data[k] = %(cpk)s; }
-  return r; }
+%(COPY)s
 struct %(V)s %(V)s_move(struct %(V)s *src) { struct %(V)s r = *src; %(V)s_init(src); return r; }
 struct %(V)s *%(V)s_assign(struct %(V)s *v, struct %(V)s x) { *v = x; return v; }
 void %(V)s_swap(struct %(V)s *a, struct %(V)s *b) { struct %(V)s t = *a; *a = *b; *b = t; }
@@ -749,7 +750,12 @@ void %(V)s_insert_range_vit(struct %(V)s *v, struct vit_%(en)s a, struct vit_%(e
 void %(V)s_insert_range_rvit(struct %(V)s *v, struct rvit_%(en)s a, struct rvit_%(en)s b) {
   __CPROVER_assert(b.i <= a.i && a.i <= a.v->size, "vstd-bounds: source range in range");
   for (unsigned long k = a.i; k > b.i; k--) { %(V)s_push_back(v, %(cpr)s); } }
-''' % dict(V=V, E=E, en=en, initelem=initelem, cpx=cp('x'), cpk=cp('src->data[k]'), cpa=cp('a.v->data[k]'), cpr=cp('a.v->data[k - 1]'))
+''' % dict(V=V, E=E, en=en, initelem=initelem, cpx=cp('x'), cpk=cp('src->data[k]'), cpa=cp('a.v->data[k]'), cpr=cp('a.v->data[k - 1]'),
+           INIT=('void %(V)s_init(struct %(V)s *v) { v->size = 0; v->cap = VSTD_CAP_%(V)s; }' if inline else 'void %(V)s_init(struct %(V)s *v) { v->data = (%(E)s *)malloc(sizeof(%(E)s) * VSTD_CAP_%(V)s); v->size = 0; v->cap = VSTD_CAP_%(V)s; }') % dict(V=V, E=E),
+           COPY=('struct %(V)s %(V)s_copy(struct %(V)s *src) { return *src; }' if inline else '''struct %(V)s %(V)s_copy(struct %(V)s *src) {
+  struct %(V)s r; r.cap = src->cap > VSTD_CAP_%(V)s ? src->cap : VSTD_CAP_%(V)s; r.data = (%(E)s *)malloc(sizeof(%(E)s) * r.cap); r.size = src->size;
+  for (unsigned long k = 0; k < src->size; k++) { r.data[k] = %(cpk)s; }
+  return r; }''') % dict(V=V, E=E, cpk=cp('src->data[k]')))
     if ops.get('eq'):
         f += '''_Bool %(V)s_eq(struct %(V)s *x, struct %(V)s *y) {
   if (x->size != y->size) return 0;
@@ -768,7 +774,11 @@ def gen_set(em, e):
     en = em.elemname(e); E = em.ctype(e); S = 'set_' + en
     ops = elem_ops(em, e)
     if not ops.get('lt'): raise Cxx2cError('vstd: std::set element without operator<: ' + e.key())
-    s = '''struct %(S)s { %(E)s *data; unsigned long size; unsigned long cap; };
+    inline = bool(em.cfg.get('vstd_inline'))
+    s = ('''#ifndef VSTD_CAP_%(S)s
+#define VSTD_CAP_%(S)s VSTD_CAP_DEFAULT
+#endif
+struct %(S)s { %(E)s data[VSTD_CAP_%(S)s]; unsigned long size; unsigned long cap; };''' if inline else '''struct %(S)s { %(E)s *data; unsigned long size; unsigned long cap; };''') % dict(S=S, E=E, en=en) + '''
 struct sit_%(en)s { struct %(S)s *s; unsigned long i; };
 struct sii_%(en)s { struct %(S)s *s; };
 struct rsit_%(en)s { struct %(S)s *s; unsigned long i; };
@@ -777,7 +787,7 @@ struct %(S)s_insert_result { struct sit_%(en)s first; _Bool second; };''' % dict
 #ifndef VSTD_CAP_%(S)s
 #define VSTD_CAP_%(S)s VSTD_CAP_DEFAULT
 #endif
-void %(S)s_init(struct %(S)s *v) { v->data = (%(E)s *)malloc(sizeof(%(E)s) * VSTD_CAP_%(S)s); v->size = 0; v->cap = VSTD_CAP_%(S)s; }
+%(INIT)s
 unsigned long %(S)s_size(struct %(S)s *v) { return v->size; }
 _Bool %(S)s_empty(struct %(S)s *v) { return v->size == 0; }
 void %(S)s_clear(struct %(S)s *v) { v->size = 0; }
@@ -821,16 +831,18 @@ struct sit_%(en)s %(S)s_erase(struct %(S)s *v, struct sit_%(en)s it) {
   v->size--; return it; }
 unsigned long %(S)s_erase_key(struct %(S)s *v, %(E)s x) {
   struct sit_%(en)s it = %(S)s_find(v, x); if (it.i < v->size) { %(S)s_erase(v, it); return 1; } return 0; }
-struct %(S)s %(S)s_copy(struct %(S)s *src) {
-  struct %(S)s r; r.cap = src->cap > VSTD_CAP_%(S)s ? src->cap : VSTD_CAP_%(S)s; r.data = (%(E)s *)malloc(sizeof(%(E)s) * r.cap); r.size = src->size;
-  for (unsigned long k = 0; k < src->size; k++) { r.data[k] = src->data[k]; }
-  return r; }
+%(COPY)s
 struct %(S)s %(S)s_move(struct %(S)s *src) { struct %(S)s r = *src; %(S)s_init(src); return r; }
 struct %(S)s *%(S)s_assign(struct %(S)s *v, struct %(S)s x) { *v = x; return v; }
 void %(S)s_swap(struct %(S)s *a, struct %(S)s *b) { struct %(S)s t = *a; *a = *b; *b = t; }
 void %(S)s_insert_range_sit(struct %(S)s *v, struct sit_%(en)s a, struct sit_%(en)s b) {
   for (unsigned long k = a.i; k < b.i; k++) { %(S)s_insert(v, a.s->data[k]); } }
-''' % dict(S=S, E=E, en=en, lt=ops['lt'])
+''' % dict(S=S, E=E, en=en, lt=ops['lt'],
+           INIT=('void %(S)s_init(struct %(S)s *v) { v->size = 0; v->cap = VSTD_CAP_%(S)s; }' if inline else 'void %(S)s_init(struct %(S)s *v) { v->data = (%(E)s *)malloc(sizeof(%(E)s) * VSTD_CAP_%(S)s); v->size = 0; v->cap = VSTD_CAP_%(S)s; }') % dict(S=S, E=E),
+           COPY=('struct %(S)s %(S)s_copy(struct %(S)s *src) { return *src; }' if inline else '''struct %(S)s %(S)s_copy(struct %(S)s *src) {
+  struct %(S)s r; r.cap = src->cap > VSTD_CAP_%(S)s ? src->cap : VSTD_CAP_%(S)s; r.data = (%(E)s *)malloc(sizeof(%(E)s) * r.cap); r.size = src->size;
+  for (unsigned long k = 0; k < src->size; k++) { r.data[k] = src->data[k]; }
+  return r; }''') % dict(S=S, E=E))
     if ('vec_' + en) in em.vstd_req:
         f += '''void %(S)s_insert_range_vit(struct %(S)s *v, struct vit_%(en)s a, struct vit_%(en)s b) {
   __CPROVER_assert(a.i <= b.i && b.i <= a.v->size, "vstd-bounds: source range in range");
